@@ -6,8 +6,9 @@
    4 comparators x (48 insertions with repeated keys, then 64 removals incl. absent keys).  A semantic change of the
    insertion / deletion fix-up code changes one of these runs with high probability.  The general theorems about the write
    path are Put_correct / gen_puts_ok (RedBlackTreeHeapInsertProofs.v: the whole insertion path, for all inputs) and
-   rotateLeft_correct / rotateRight_correct / replaceNode_exec (RedBlackTreeHeapRotProofs.v); for Remove / deleteCase1..6 this
-   run test is the only check. *)
+   rotateLeft_correct / rotateRight_correct / replaceNode_exec (RedBlackTreeHeapRotProofs.v), Remove_correct /
+   gen_puts_removes_ok (RedBlackTreeHeapRemoveProofs.v: the whole deletion path on red-black trees).  This run test is kept as an
+   independent check (it also exercises trees and operation orders chosen without looking at the proofs). *)
 From Coq Require Import ZArith List Lia Bool Arith.
 From Gods Require Import Common.Cmp Model.RBTree.
 From GodsGenProofs Require Import GoCmp GoTreeHeap RBTreeHeapRep.
